@@ -17,6 +17,9 @@ type Mutation struct {
 	Names    []string `json:"names"`    // any of these names identifies the offender
 	Tail     string   `json:"tail"`     // raw SDL appended after the rendered model (some violations are easier to write than to model)
 	Nested   bool     `json:"nested"`
+	// Whole, when set, is the complete document (the generated model is not used): violations that
+	// need a schema of a particular overall shape, e.g. one without any operation type
+	Whole string `json:"whole,omitempty"`
 }
 
 func clone(s *hx.Schema) *hx.Schema {
@@ -50,7 +53,7 @@ var MutationKinds = []string{
 	"dir-wrong-location-type", "dir-wrong-location-enumvalue", "dir-wrong-location-field", "dir-wrong-location-arg", "dir-wrong-location-inputfield",
 	"dir-unknown-arg-type", "dir-unknown-arg-field", "dir-uncoercible-arg-type", "dir-uncoercible-arg-field", "dir-uncoercible-arg-enumvalue",
 	// R8 directive definition cycles
-	"dir-cycle-self", "dir-cycle-two", "dir-cycle-lasso", "ref-directive-named-like-type",
+	"dir-cycle-self", "dir-cycle-two", "dir-cycle-lasso", "ref-directive-named-like-type", "schema-ext-dir-no-roots", "iface-shared-field-second-unsatisfied",
 }
 
 func ruleOf(kind string) string {
@@ -678,6 +681,25 @@ func Mutate(t *rapid.T, base *hx.Schema, kind string) (s *hx.Schema, m Mutation,
 			m.Position = "input-field"
 		}
 		m.Names = []string{tn}
+	case "schema-ext-dir-no-roots":
+		// no schema block and no operation type at all: the implied schema is empty, its extension
+		// still has to follow the rules for directive uses
+		switch pick(2, "variant") {
+		case 0:
+			m.Whole = "directive @zd(p: Int) on OBJECT\ntype ZT { a: Int }\nextend schema @zd {}\n"
+		default:
+			m.Whole = "type ZT { a: Int }\ndirective @zd(p: Int) on SCHEMA\nextend schema @zd(q: 1) {}\n"
+		}
+		m.Names, m.Position = []string{"zd", "q"}, "schema"
+	case "iface-shared-field-second-unsatisfied":
+		// two interfaces declare a field of the same name differently: satisfying the first listed is not enough
+		second := []string{"interface ZB { zf: String }", "interface ZB { zf(x: Int): Int }", "interface ZB { zf: Int! }", "interface ZB { zf(x: Int!): Int }"}[pick(4, "variant")]
+		obj := "type ZT implements ZA & ZB { zf: Int }"
+		if pick(3, "viaExtend") == 0 {
+			obj = "type ZT implements ZA { zf: Int }\nextend type ZT implements ZB { zz: Int }"
+		}
+		m.Tail = "interface ZA { zf: Int }\n" + second + "\n" + obj
+		m.Names, m.Position = []string{"ZT", "zf", "ZB"}, "implements"
 	case "dir-cycle-two":
 		m.Tail = "directive @ping(a: Int @pong) on INPUT_FIELD_DEFINITION | ARGUMENT_DEFINITION\ndirective @pong(a: Int @ping) on INPUT_FIELD_DEFINITION | ARGUMENT_DEFINITION"
 		m.Names, m.Position = []string{"ping", "pong"}, "directive"
@@ -689,6 +711,9 @@ func Mutate(t *rapid.T, base *hx.Schema, kind string) (s *hx.Schema, m Mutation,
 
 // Render prints a (possibly mutated) schema plus the mutation's raw tail.
 func Render(s *hx.Schema, m *Mutation, o hx.SDLOpts) string {
+	if m != nil && m.Whole != "" {
+		return m.Whole
+	}
 	out := s.SDL(o)
 	if m != nil && m.Tail != "" {
 		out += m.Tail + "\n"
@@ -705,6 +730,9 @@ func fmtMutation(m Mutation) string {
 // that is loaded after everything else. The full set is the same ill-formed set, so some load has to
 // be refused.
 func LateForms(ms *hx.Schema, m *Mutation, o hx.SDLOpts) (forms [][]string) {
+	if m.Whole != "" {
+		return nil
+	}
 	if m.Tail != "" {
 		return [][]string{{ms.SDL(o), m.Tail + "\n"}}
 	}
